@@ -66,6 +66,11 @@ CHECKS = {
          "All 16384 ordered pairs of key subsets of a 7-key universe under the block size scaled to 3 (so every pair spans 0..3 blocks: empty, disjoint, interleaved, nested, identical ranges), with every listed modification pattern and key layout incl. composite keys that tie across block boundaries, and all ordered pairs of unions of key segments sized to put keys on real 255-row block edges, are ingested and diffed by the real code; the events are compared with the set model and every offset is resolved back to its row. The block-window search only looks at first keys of blocks, so this scope drives every branch of it.",
          "Trusted: the set model and hash recomputation (60 lines); the blocksize overlay (fail-closed). Pairs with different column lists are not judged.",
          "DESIGN.md §4 C04"),
+ "C12": ("exploration",
+         "bounded-exhaustive enumeration of repository histories (DAG x tables sharing blocks x refs of every kind x ref deletion x shallow commits) against a reachability model, with repeated prune",
+         "Every commit DAG up to 3 (thorough 4) nodes, every assignment of tables from a pool that shares blocks, up to 2 refs on any node, every choice of a ref to delete between prunes, and bounded deviations over ref kind, absent tables (shallow commits) and partially present tables are built in an in-memory store and pruned three times by the real prune.Prune; after each prune the store is compared key by key with what reachability from the refs on the pre-prune snapshot dictates (kept byte-identical and structurally sound; unreachable commits, their exclusive tables and blocks gone; idempotent). wrgl prune / wrgl gc are run on disk for branch-delete and reset scenarios.",
+         "Trusted: the reachability model (60 lines); map-backed ref store. For a shallow commit (table object absent) nothing is demanded of stray blocks of that table, because nothing identifies them.",
+         "DESIGN.md §4 C12"),
 }
 
 NOT_YET = {}
